@@ -85,6 +85,32 @@ def target (i : Nat) (chain : Int) (len : Nat) : Option Nat :=
   let jz : Int := (i : Int) + chain
   if jz < 0 then none else if jz.toNat ≥ len then none else some jz.toNat
 
+/-- the `match kind { MARK => .., CURSIVE => .., _ => {} }` tail of `propagate_attachment_offsets`
+    (after the nested call returned): `pos[i]` accumulates the offset of `pos[j]`. -/
+def attachStep (d : Dir) (kind : Nat) (p : Array Pos) (i j : Nat) : M (Array Pos) :=
+  if kind = ATTACH_MARK then
+    match get p i, get p j with
+    | .error e, _ => .error e
+    | _, .error e => .error e
+    | .ok qi, .ok qj =>
+      if ¬ (j < i) then .error .assert
+      else if d.isForward then
+        match sumAdv p j (i - j) with
+        | .error e => .error e
+        | .ok s => .ok (put p i { qi with xo := qi.xo + qj.xo - s.1, yo := qi.yo + qj.yo - s.2 })
+      else
+        match sumAdv p (j + 1) (i - j) with
+        | .error e => .error e
+        | .ok s => .ok (put p i { qi with xo := qi.xo + qj.xo + s.1, yo := qi.yo + qj.yo + s.2 })
+  else if kind = ATTACH_CURSIVE then
+    match get p i, get p j with
+    | .error e, _ => .error e
+    | _, .error e => .error e
+    | .ok qi, .ok qj =>
+      if d.isHorizontal then .ok (put p i { qi with yo := qi.yo + qj.yo })
+      else .ok (put p i { qi with xo := qi.xo + qj.xo })
+  else .ok p
+
 /-- src: ot_layout_gpos_table.rs::propagate_attachment_offsets
     Result: new positions and the number of nested frames this call used (1 = no recursion). -/
 def propagate (fuel : Nat) (p : Array Pos) (len i : Nat) (d : Dir) : M (Array Pos × Nat) :=
@@ -103,31 +129,12 @@ def propagate (fuel : Nat) (p : Array Pos) (len i : Nat) (d : Dir) : M (Array Po
           match propagate fuel p1 len j d with
           | .error e => .error e
           | .ok (p2, dep) =>
-            if pi.atype = ATTACH_MARK then
-              match get p2 i, get p2 j with
-              | .error e, _ => .error e
-              | _, .error e => .error e
-              | .ok qi, .ok qj =>
-                if ¬ (j < i) then .error .assert
-                else if d.isForward then
-                  match sumAdv p2 j (i - j) with
-                  | .error e => .error e
-                  | .ok s => .ok (put p2 i { qi with xo := qi.xo + qj.xo - s.1, yo := qi.yo + qj.yo - s.2 }, dep + 1)
-                else
-                  match sumAdv p2 (j + 1) (i - j) with
-                  | .error e => .error e
-                  | .ok s => .ok (put p2 i { qi with xo := qi.xo + qj.xo + s.1, yo := qi.yo + qj.yo + s.2 }, dep + 1)
-            else if pi.atype = ATTACH_CURSIVE then
-              match get p2 i, get p2 j with
-              | .error e, _ => .error e
-              | _, .error e => .error e
-              | .ok qi, .ok qj =>
-                if d.isHorizontal then .ok (put p2 i { qi with yo := qi.yo + qj.yo }, dep + 1)
-                else .ok (put p2 i { qi with xo := qi.xo + qj.xo }, dep + 1)
-            else .ok (p2, dep + 1)
+            match attachStep d pi.atype p2 i j with
+            | .error e => .error e
+            | .ok q => .ok (q, dep + 1)
 
 /-- number of entries with a non-zero `attach_chain` — the termination measure of both recursions -/
-def nz (p : Array Pos) : Nat := (p.toList.filter (fun q => q.chain ≠ 0)).length
+def nz (p : Array Pos) : Nat := p.countP (fun q => q.chain != 0)
 
 /-- the fuel the model hands to every top-level call (always enough, see `Lemmas/Gpos.lean`) -/
 def fuelFor (p : Array Pos) : Nat := p.size + 1
